@@ -174,7 +174,7 @@ ContainerDefaults ==
 \* or None test, isinstance is not an exact-type test, == is not identity
 HardTargets ==
   {VC("flist", <<VInt(1)>>), VC("flist", <<>>), VC("flist", <<VInt(1), VStr("a")>>), VC("fdict", << Entry(VStr("a"), VInt(1)) >>),
-   VC("fdict", <<>>), VC("ntuple", <<VInt(1)>>), VC("ntuple", <<VInt(1), VStr("a")>>), VC("ntuple", <<>>),
+   VC("fdict", <<>>), VC("fset", <<VInt(1)>>), VC("fset", <<>>), VC("ntuple", <<VInt(1)>>), VC("ntuple", <<VInt(1), VStr("a")>>), VC("ntuple", <<>>),
    VAny, VGrumpy, VC("list", <<VAny>>), VC("list", <<VInt(1), VAny>>), VC("dict", << Entry(VStr("a"), VAny) >>), VC("tuple", <<VAny>>),
    VC("list", <<VInt(0)>>), VC("list", <<VStr("")>>), VC("list", <<VBool(FALSE), VNone>>), VC("tuple", <<VInt(0)>>),
    VC("tuple", <<VC("tuple", <<>>)>>), VC("list", <<VC("list", <<>>), VC("dict", <<>>)>>),
@@ -182,7 +182,8 @@ HardTargets ==
    VC("dict", << Entry(VBool(FALSE), VC("list", <<>>)) >>), VC("dict", << Entry(VC("tuple", <<>>), VInt(0)) >>),
    VC("odict", << Entry(VStr("b"), VInt(1)), Entry(VStr("a"), VInt(1)) >>), VInt(-1), VC("dict", << Entry(VStr("a"), VInt(0)) >>)}
 HardPatterns ==
-  {PList(<<PType("int")>>), PList(<<PLit(VInt(1))>>), PList(<<PLit(VInt(0)), PLit(VStr("")), PLit(VBool(FALSE))>>),
+  {PList(<<>>), PSet(<<>>), PFrozenset(<<>>), PSet(<<PType("int")>>),       \* the empty pattern matches only empty containers
+   PList(<<PType("int")>>), PList(<<PLit(VInt(1))>>), PList(<<PLit(VInt(0)), PLit(VStr("")), PLit(VBool(FALSE))>>),
    PList(<<PType("object")>>), PList(<<PList(<<>>), PDict(<<>>)>>), PList(<<PLit(VNone), PType("bool")>>),
    PType("list"), PType("dict"), PType("tuple"), PType("object"), PLit(VInt(1)), PLit(VStr("a")), PLit(VInt(0)), PLit(VNone),
    PTuple(<<PType("int")>>), PTuple(<<PType("int"), PType("str")>>), PTuple(<<>>), PTuple(<<PLit(VInt(0))>>), PTuple(<<PTuple(<<>>)>>),
